@@ -212,7 +212,11 @@ func (f *StringFormatter) literal() string {
 }
 
 func (f *StringFormatter) integer() int {
-	i, _ := strconv.Atoi(string(f.runes()))
+	i, err := strconv.Atoi(string(f.runes()))
+	if err != nil {
+		// a number too large to be a width or a precision: as if none was given
+		return -1
+	}
 	return i
 }
 
